@@ -248,7 +248,7 @@ pub fn conforming(r: &mut Rng, variant: u8) -> Vec<(String, JV)> {
     let nunk = *r.pick(&[0u64, 0, 1, 1, 2, 4]);
     for _ in 0..nunk {
         let k = if r.chance(1, 3) {
-            r.pick(&["scopes", "Active", "active ", "expires_in", "token_type\0", "EXP", "error", "audience", "x", "", "é", "exp\u{200b}", "ext"]).to_string()
+            (if r.chance(1, 2) { *r.pick(crate::ops::common::ALIAS_LIKE_MEMBER_NAMES) } else { *r.pick(&["scopes", "Active", "active ", "expires_in", "token_type\0", "EXP", "error", "audience", "x", "", "é", "exp\u{200b}", "ext"]) }).to_string()
         } else {
             gen::mixed(r)
         };
@@ -372,7 +372,7 @@ fn member_class(k: &str) -> &str {
     }
 }
 
-fn malformed(r: &mut Rng) -> IntroCase {
+pub(crate) fn malformed(r: &mut Rng) -> IntroCase {
     let mut c = base_case(r);
     let mut ms = match &c.doc {
         JV::Obj(ms) => ms.clone(),
@@ -743,6 +743,26 @@ impl CaseInput for IntroCase {
                         oracle.push(("C15:extension".into(), format!("[{path}] expected {:?}, extra_fields() is {:?}", w.ext, s.ext)));
                     }
                 }
+                _ => {}
+            }
+        }
+        // the same body with an application token type that has a closed variant set
+        if let Some(l) = &lower {
+            type ClosedIntro = StandardTokenIntrospectionResponse<EmptyExtraTokenFields, ClosedTokenType>;
+            let closed = serde_json::from_slice::<ClosedIntro>(&body);
+            let representable = l == "bearer" || l == "mac";
+            match (&closed, representable) {
+                (Ok(v), false) => oracle.push((
+                    "C15:token_type".into(),
+                    format!("token_type {l:?} cannot be represented by the application's token type, yet the response was accepted with token_type() = {:?}: {text:?}", v.token_type()),
+                )),
+                (Ok(v), true) => {
+                    let want = if l == "bearer" { ClosedTokenType::Bearer } else { ClosedTokenType::Mac };
+                    if v.token_type() != Some(&want) {
+                        oracle.push(("C15:token_type".into(), format!("closed token type: sent {l:?}, token_type() = {:?}", v.token_type())));
+                    }
+                }
+                (Err(_), true) if slice.is_some() => oracle.push(("C15:accept".into(), format!("accepted with BasicTokenType but refused with a custom token type that has the variant {l:?}: {text:?}"))),
                 _ => {}
             }
         }
